@@ -18,6 +18,7 @@ import sympy as sp
 
 from bsa import cfg, guards, logic, paths, sym
 from bsa.hir import Missing, callee, pat_binds, peel, place, pp, walk
+from rules import caps
 
 LEVEL = "other"
 
@@ -68,15 +69,23 @@ def preset_all(body, values):
     return setup
 
 
-def constant_locals(F, body):
-    """Locals with a single definition that folds to a number (half, two, three, four)."""
+def constant_locals(F, body, cls=None):
+    """Locals with a single immutable definition that folds to a number (half, two, three, four; also from earlier such constants and through
+    `Complex::new(c, 0)`), in definition order."""
     out = {}
+    binds = all_binds(body)
     for n in walk(body["body"]):
         if n.get("k") == "LetS" and n["pat"].get("k") == "Bind" and "init" in n and "Mut)" not in n["pat"].get("mode", ""):
+            if any(x.get("k") == "Call" and "ovl" in x for x in walk(n["init"])):
+                continue
             try:
-                it = guards.GInterp(F, body, lambda c: True)
+                it = (cls or guards.GInterp)(F, body, lambda c: True)
+                for nm, v in out.items():
+                    for i in binds.get(nm, []):
+                        it.env[i] = v
+                        it.names[i] = nm
                 v = it.ev(n["init"])
-                if hasattr(v, "is_number") and v.is_number:
+                if hasattr(v, "is_number") and v.is_number and len(binds.get(n["pat"]["name"], [])) == 1:
                     out[n["pat"]["name"]] = v
             except Exception:
                 pass
@@ -849,16 +858,10 @@ def check_sign_three_way(F, run):
 
 
 def check_counter_loop(F, run, b, loop):
-    c = peel(loop["c"])
-    ok = c.get("k") == "Bin" and c["op"] in ("Le", "Lt") and peel(c["l"]).get("k") == "Local" and peel(c["r"]).get("k") == "Local" and peel(c["r"])["name"] == "n_max"
-    if ok:
-        cnt = peel(c["l"])
-        incs = [s for s in loop["body"]["stmts"] if s.get("e", {}).get("k") == "AssignOp" and s["e"]["op"] == "AddAssign"
-                and peel(s["e"]["l"]).get("k") == "Local" and peel(s["e"]["l"])["id"] == cnt["id"] and peel(s["e"]["r"]).get("lit") == "int" and int(peel(s["e"]["r"])["v"]) > 0]
-        conts = [x for x in walk(loop["body"], into_closures=False) if x.get("k") == "Continue"]
-        ok = len(incs) == 1 and not conts
-    run.check(ok, "R7.7", "roots::bisection", "counter-loop", F.loc(b, loop), "bisection's loop is not bounded by n_max with an unconditional increment",
-              sample="while n <= n_max { …; n += 1 }")
+    """R7.7 — bisection's loop is bounded by the caller's cap (rules/caps.py) and exhausting it gives Err."""
+    ok, form, why = caps.bounded_by_cap(b, loop)
+    run.check(ok, "R7.7", "roots::bisection", "counter-loop", F.loc(b, loop), "bisection's loop is not bounded by n_max: %s" % why,
+              sample="bisection: %s bounded by the cap" % form)
     tail = peel(b["body"].get("expr") or {})
     run.check(tail.get("k") == "Call" and (callee(tail) or "").endswith("Err"), "R7.7", "roots::bisection", "cap-gives-err", F.loc(b),
               "exhausting the iteration cap does not return Err")
